@@ -83,6 +83,21 @@ def _mk_exc_classes() -> dict[str, type]:
 
 
 EXC_CLASSES = _mk_exc_classes()
+
+
+class XGEN(Exception):
+    """ONE exception type whose class is carried by the INSTANCE (`status`, as HTTP client errors do): what
+    `default_classifier` says about it must be computed per object, never remembered per type."""
+
+    def __copy__(self):
+        raise TypeError("this exception object cannot be copied")
+
+    def __deepcopy__(self, memo):
+        raise TypeError("this exception object cannot be copied")
+
+
+GEN_STATUS = {"AUTH": 401, "PERMISSION": 403, "PERMANENT": 404, "CONCURRENCY": 409, "RATE_LIMIT": 429,
+              "SERVER_ERROR": 503, "UNKNOWN": None}
 # the same classes (same `__name__`, same bases) whose INSTANCES are falsy — an aggregate error with an empty
 # member list (`__len__` == 0): `if exc:` is not `if exc is not None:`
 EXC_CLASSES_FALSY = {k: type(c.__name__, (c,), {"__len__": lambda self: 0}) for k, c in EXC_CLASSES.items()}
@@ -257,7 +272,13 @@ def make_exception(tok: str, falsy_ok: bool = False, mixed: bool = False) -> Bas
     e: BaseException
     if k == "ordinary":
         # every third exception token is a falsy instance (deterministic in the token, so replays agree)
-        e = (EXC_CLASSES_FALSY if falsy_ok and int(p[1]) % 3 == 0 else EXC_CLASSES)[p[2]](f"boom{p[1]}")
+        if int(p[1]) % 3 != 0 and int(p[1]) % 4 == 1 and p[2] in GEN_STATUS:
+            # every fourth-or-so token: the shared type, class by instance attribute (deterministic in the token)
+            e = XGEN(f"boom{p[1]}")
+            if GEN_STATUS[p[2]] is not None:
+                e.status = GEN_STATUS[p[2]]  # type: ignore[attr-defined]
+        else:
+            e = (EXC_CLASSES_FALSY if falsy_ok and int(p[1]) % 3 == 0 else EXC_CLASSES)[p[2]](f"boom{p[1]}")
         e._ref = f"o{p[1]}"  # type: ignore[attr-defined]
     elif k == "abort":
         e = AbortRetryError()
@@ -284,6 +305,19 @@ def make_exception(tok: str, falsy_ok: bool = False, mixed: bool = False) -> Bas
         raise ValueError(tok)
     e._tok = tok  # type: ignore[attr-defined]
     return e
+
+
+_UNPRINTABLE: dict = {}
+
+
+def _unprintable(cls: type) -> type:
+    """Same-named subclass of `cls` whose instances cannot be formatted."""
+    sub = _UNPRINTABLE.get(cls)
+    if sub is None:
+        def _bad(self):
+            raise ValueError("this exception cannot be formatted")
+        sub = _UNPRINTABLE[cls] = type(cls.__name__, (cls,), {"__repr__": _bad, "__str__": _bad})
+    return sub
 
 
 _UNSET = object()
@@ -567,10 +601,15 @@ class Env:
     def log_internal(self, req: str, ans: str) -> None:
         self.exchanges.append((self.step, req, ans))
 
-    def _raise_or(self, a: Ans, mixed: bool = False) -> None:
-        """`mixed`: the operation and the sleepers only (C13: "raised by the operation or during a sleep")"""
+    def _raise_or(self, a: Ans, mixed: bool = False, unprintable: bool = False) -> None:
+        """`mixed`: the operation and the sleepers only (C13: "raised by the operation or during a sleep");
+        `unprintable`: what an observability hook raises cannot be formatted either (`repr`/`str` raise) — C15 says
+        such a hook's failure is swallowed, not reported through a path that can itself fail"""
         if a.kind == "raise":
-            raise make_exception(a.a, mixed=mixed)
+            e = make_exception(a.a, mixed=mixed)
+            if unprintable and a.a.split(":")[0] == "ordinary":
+                e.__class__ = _unprintable(type(e))
+            raise e
 
     async def _araise_or(self, a: Ans, mixed: bool = False) -> None:
         """Async variant: optionally deliver BaseException-only kinds via a real suspension."""
@@ -874,13 +913,13 @@ class Env:
 
     def on_metric(self, event, attempt, sleep_s, tags) -> None:
         a = self.ask(f"metric {event} {attempt} {to_ticks(sleep_s)} {self.tags(tags)}", "metric")
-        self._raise_or(a)
+        self._raise_or(a, unprintable=True)
 
     def on_log(self, event, fields) -> None:
         ra = fields.get("retry_after_s")
         a = self.ask(f"log {event} {fields['attempt']} {to_ticks(fields['sleep_s'])} "
                      f"{self.tags(fields)} {opt(ra, lambda x: str(to_ticks(x)))}", "log")
-        self._raise_or(a)
+        self._raise_or(a, unprintable=True)
 
 
 # --------------------------------------------------------------------------- logged components
